@@ -172,3 +172,23 @@ package traffic
 //@   ensures transfer-covers-persisted: result == nil ==> bigval(trafficOf(s, peerAddress).transferTraffic) >= savedT(ref(s.chequeStore), peerAddress)
 //@   ensures received-cheque-total-covers-chain: result == nil ==> bigval(trafficOf(s, peerAddress).transferChequeTraffic) >= chainT
 //@   ensures chain-records-untouched: rec0 != nil ==> bigval(rec0.retrieveChainTraffic) == chainR && bigval(rec0.transferChainTraffic) == chainT
+
+//@ # ---- C31: the record of what a peer has cashed comes from the chain only -------------------------
+//@ # chainSaysCashed(s, a): what the chain (or, when it cannot be reached, the persisted copy of its last
+//@ # answer) reports as cashed by peer a from this node's cheques
+//@ spec func chainSaysCashed(s *Service, a common.Address) int
+//@ extern func (*Service).trafficPeerChainUpdate
+//@   assigns all
+//@   ensures result == nil ==> trafficOf(s, peerAddress) != nil && trafficOf(s, peerAddress).retrieveChainTraffic != nil && bigval(trafficOf(s, peerAddress).retrieveChainTraffic) == chainSaysCashed(s, peerAddress)
+//@   ensures s.trafficPeers.trafficPeers == old(s.trafficPeers.trafficPeers)
+//@ extern func (*Service).UpdatePeerBalance
+//@   assigns all
+//@   ensures s.trafficPeers.trafficPeers == old(s.trafficPeers.trafficPeers)
+//@   ensures forall k string :: old(present(s.trafficPeers.trafficPeers, k)) ==> present(s.trafficPeers.trafficPeers, k) && s.trafficPeers.trafficPeers[k] == old(s.trafficPeers.trafficPeers[k]) && s.trafficPeers.trafficPeers[k].retrieveChainTraffic == old(s.trafficPeers.trafficPeers[k].retrieveChainTraffic) && bigval(s.trafficPeers.trafficPeers[k].retrieveChainTraffic) == old(bigval(s.trafficPeers.trafficPeers[k].retrieveChainTraffic))
+//@ extern func (github.com/gauss-project/aurorafs/pkg/settlement/chain.Traffic).BalanceOf
+//@   assigns nothing
+//@ # after a successful cash-out the balance is re-read and the cashed record is what the chain says
+//@ func (*Service).cashChequeReceiptUpdate$1$2
+//@   property C31
+//@   requires s != nil && s.trafficChainService != nil && s.trafficPeers.trafficPeers != nil
+//@   ensures cashed-record-is-what-the-chain-says: result == nil ==> trafficOf(s, beneficiary) != nil && bigval(trafficOf(s, beneficiary).retrieveChainTraffic) == chainSaysCashed(s, beneficiary)
